@@ -156,4 +156,27 @@ PROPS = {
         "explanation": "Invariant + refinement by induction over all histories (Proofs/NNSRecords.v); corpus keeps the F14 (setRecord duplicate) and deep-sub-name reader histories as regression guards",
         "assumptions": ["RIPEMD-160 injective on names (explicit premise hash_inj / injective hash)", "name/record-data syntax is C18's (Section variables, boolean tables in the cases files)", "receiving contracts' onNEP11Payment does not re-enter NNS; gas not modelled except BurnGas needing > 0"],
     },
+    "C06": {
+        "level_text": "Tick theorems (success iff Alphabet witness, e > epoch and no rejecting subscriber; epoch monotone and changing only in successful ticks; publication of the candidate set in both formats with tick height, candidates unchanged; ordered exactly-once fan-out; idempotent subscription with indices 0,1,2,...) proved for every history of the Netmap model from a deployment; model tied to the code by differential runs with probe subscriber contracts and the real Balance subscriber",
+        "level_note": "Trusted: Coq kernel; hand-written model validated differentially; subscribers abstract (sub_ok/sub_accepts, do not call back into Netmap); per-epoch list statements for epochs < 2^32 (four-byte keys); storage value size limit and gas not modelled",
+        "technique": TECH_INV,
+        "harness_test": "TestC06",
+        "explanation": "Invariant (count 1..254, ring index in range, indexed subscriber keys, lists only for past epochs) by induction over all histories; exact outcome equation of NewEpoch",
+        "assumptions": ["subscriber contracts do not re-enter Netmap mutators; fewer than 256 subscribers is enforced by the model (256th subscription faults; not reachable in the correspondence)"],
+    },
+    "C07": {
+        "level_text": "Refinement of the candidate registry of the property text (success predicate cs_ok and effect cs_apply) by both candidate lists, proved for every history of the Netmap model, plus one-step theorems: state-only update in every representation, removal from both lists, successful no-op removal, faults for unknown candidate/state and malformed keys/infos, double witness",
+        "level_note": "Trusted: Coq kernel; hand-written model validated differentially (keys in legacy/structured/both/neither, invalid states, malformed and over-long keys); CheckWitness of a 33-byte key = that key signed; witness scopes not modelled",
+        "technique": TECH_INV,
+        "harness_test": "TestC07",
+        "explanation": "refines (nrun ops) (cs_run ops) by induction; Go monitor runs an independent reference state machine written from the property text",
+    },
+    "C08": {
+        "level_text": "Ring invariant with ghost window across ticks and updateSnapshotCount (enlarging and both shrinking cases, general proof), snapshot/snapshotByEpoch/listNodes/netmap return exactly the published map inside the window and nothing outside, resize preserves min(window,new) maps and leaks nothing, every reachable state can tick, bad counts rejected, exact acceptance condition of a resize (Put(nil) observation) - proved for every history with consecutive successful ticks; count positivity for all histories",
+        "level_note": "Trusted: Coq kernel; hand-written model validated differentially (quick: corpus + 30 random points of the scope; thorough: exhaustive (old,new,position) for counts <= 12 + 150 random histories with up to 3 resizes); listNodes statements for 0 <= e, epoch < 2^32 (four-byte key aliasing of other arguments is an observation); storage value size limit and gas not modelled",
+        "technique": TECH_INV,
+        "harness_test": "TestC08",
+        "explanation": "Pointwise slot description slot_val(cur,count,window,epoch,pub) preserved by tick and by the move/delete loops (loop lemma move_fold_spec); per-epoch list invariant uses injectivity of fourBytesBE on [0,2^32) and a finite check that negative loop bounds alias only future epochs",
+        "assumptions": ["quantifier's premise: every successful tick is epoch+1 (consecutive, decidable)"],
+    },
 }
